@@ -1362,6 +1362,156 @@ def stage_roundtrip_units():
 ALL.append(stage_roundtrip_units)
 
 
+# ---- C19: workflow row round trip  store(execution) -> row -> row_to_execution
+WF_FIELDS = ["id", "type", "application", "name", "status", "context", "start_time", "end_time", "start_time_expiry", "is_canceled",
+             "canceled_by", "cancellation_reason", "pipeline_config_id", "is_limit_concurrent", "max_concurrent_executions",
+             "keep_waiting_pipelines"]
+
+
+def _wf_roundtrip_run(ctx):
+    I = ctx.I
+    from pyvc.values import SFunc
+
+    conn = SQL.new_connection(I)
+    I.st.ghost["the_conn"] = conn
+    wf = T.new_symbolic(I, "Workflow", "execution")
+    ctx.args["execution"] = wf
+    for f in WF_FIELDS:
+        I.obj_getattr(wf, f)
+    # two arbitrary stages stand for "every stage": the stage rows themselves are the unit L1/insert_stage+row_to_stage
+    s1, s2 = T.new_symbolic(I, "StageExecution", "stage_a"), T.new_symbolic(I, "StageExecution", "stage_b")
+    ctx.extra["stages"] = [s1, s2]
+    I.st.objs[wf.oid].fields["stages"] = I.ops.new_conc_list([s1, s2])
+    I.st.assume(I.ops.as_int(I.getattr(wf, "max_concurrent_executions")) >= 0)
+    ci = I.index.find_class("SqliteWorkflowStore")
+    oid = I.st.new_id()
+    rec = ObjRec(ci.name, ci, {}, {"name": "store", "symbolic": True})
+    I.st.objs[oid] = rec
+    rec.fields["connection_string"] = I.ops.lit("sqlite:///x.db")
+    I.call(I.getattr(SObj(oid), "store"), [wf], {})
+    ins = sql_effects(ctx, "insert", "pipeline_executions")
+    ctx.extra["n_inserts"] = len(ins)
+    key = ins[0].data["key"]
+    ctx.extra["commits_after_store"] = _commits(ctx)
+    tab = SQL.get_db(I).table("pipeline_executions")
+    stmt = SQL.parse("SELECT * FROM pipeline_executions WHERE id = :id")
+    row = SQL.new_row(I, stmt, tab, key)
+    m2, _c2, node2 = I.index.func(P + "converters:row_to_execution")
+    return I.call_func(SFunc(node2, m2, None, None, None, node2.name), [row], {})
+
+
+def _wf_roundtrip_post(ctx):
+    """store(execution): one pipeline_executions row keyed by execution.id, every stage of execution.stages inserted under that
+    id, in order, then one commit; the row read back through row_to_execution has the same status, context, type and the
+    other scalar columns."""
+    I = ctx.I
+    if ctx.exc is not None:
+        names = I.exc_class_names(ctx.exc)
+        return [("no-exception", z3.BoolVal("IntegrityError" in names))]
+    a, b = ctx.args["execution"], ctx.result
+    goals = [("one-row", z3.BoolVal(ctx.extra["n_inserts"] == 1)), ("committed", z3.BoolVal(bool(ctx.extra["commits_after_store"])))]
+    st_eff = [e for e in ctx.st.effects_of("insert_stage")]
+    goals.append(("every-stage-inserted-in-order", z3.BoolVal(len(st_eff) == 2 and all(
+        isinstance(e.data["stage"], SObj) and e.data["stage"].oid == s.oid for e, s in zip(st_eff, ctx.extra["stages"])))))
+    for n, e in enumerate(st_eff):
+        goals.append((f"stage{n}.under-the-execution-id", I.ops.eq(e.data["execution_id"], I.getattr(a, "id"))))
+    for f in WF_FIELDS:
+        try:
+            goals.append((f"field.{f}", I.ops.eq(I.getattr(a, f), I.getattr(b, f))))
+        except Exception:  # comparison not expressible
+            goals.append((f"field.{f}.comparable", FALSE))
+    return goals
+
+
+def wf_roundtrip_units():
+    reg = sql_registry()
+    reg.contracts["*._get_connection"] = lambda I, a, k: I.st.ghost["the_conn"]
+    return [Unit(prop="*", name="L1/store+row_to_execution", func=P + "converters:row_to_execution", params=[], names=STATUS_NAMES, registry=reg,
+                 replayable=False, run=_wf_roundtrip_run, obligations=[Obl("C19/store/workflow-row-roundtrip", _wf_roundtrip_post, when="any")])]
+
+
+ALL.append(wf_roundtrip_units)
+
+
+# ---- C18: the signal table  buffer_signal / consume_signal (persistent trigger, consumed exactly once)
+SG = "stabilize.persistence.sqlite.signals:"
+ST = "workflow_signals"
+
+
+def _consume_signal_post(ctx):
+    """consume_signal returns None and writes nothing, or returns the signal of ONE row that was unconsumed and addressed to
+    this (execution, stage) -- and to this name when a name is given --, and marks exactly that row consumed: every other
+    row stays as it was, so a signal is handed out at most once and no other waiting signal is lost."""
+    I = ctx.I
+    if ctx.exc is not None:
+        return [("no-exception", z3.BoolVal("JSONDecodeError" in I.exc_class_names(ctx.exc)))]
+    ent, cur = entry_table(ST), cur_table(ctx, ST)
+    ups = sql_effects(ctx, "update", ST)
+    res = ctx.result
+    returned = z3.Not(I.ops.is_none(res))
+    goals = [("commit-free", z3.BoolVal(not _commits(ctx)))]
+    if not ups:
+        return goals + [("none-without-mark", z3.Not(returned)), ("unchanged", _frame(ctx, ST))]
+    u = ups[0].data
+    goals.append(("one-mark", z3.BoolVal(len(ups) == 1)))
+    goals.append(("mark-is-keyed", z3.BoolVal(bool(u.get("pinned")))))
+    if not u.get("pinned"):
+        return goals
+    r = u["key"]
+    goals.append(("returned-iff-marked", returned == u["hit"]))
+    goals.append(("marks-consumed", z3.BoolVal("consumed" in u["sets"]) if "consumed" not in u["sets"] else u["sets"]["consumed"][0] == 1))
+    goals.append(("only-the-consumed-columns", z3.BoolVal(set(u["sets"]) <= {"consumed", "consumed_at"})))
+    eid, ref, name = ctx.args["execution_id"], ctx.args["stage_ref_id"], ctx.args["signal_name"]
+    named = z3.And(z3.Not(I.ops.is_none(name)), I.ops.truthy(name))
+    was = z3.And(z3.Select(ent.exists, r), z3.Select(ent.col("consumed"), r) == 0,  # (a DEFAULT column is never NULL: assumption of pyvc.sql)
+                 z3.Select(ent.col("execution_id"), r) == eid.t, z3.Select(ent.col("stage_ref_id"), r) == ref.t,
+                 z3.Implies(named, z3.Select(ent.col("signal_name"), r) == I.ops.strip_opt(name).t))
+    goals.append(("the-row-was-waiting-for-this-stage", z3.Implies(returned, was)))
+    goals.append(("other-rows-untouched", _frame(ctx, ST, except_key=r)))
+    goals.append(("signal-content-untouched", z3.And(*[z3.Select(cur.cols[c], r) == z3.Select(ent.col(c), r)
+                                                       for c in ("execution_id", "stage_ref_id", "signal_name", "signal_data")])))
+    ro = res.inner if isinstance(res, SOpt) else res
+    if isinstance(ro, SObj):
+        goals.append(("returns-that-row", z3.Implies(returned, z3.And(I.ops.as_int(I.getattr(ro, "id")) == r,
+                                                                     I.getattr(ro, "signal_name").t == z3.Select(ent.col("signal_name"), r)))))
+    return goals
+
+
+def _buffer_signal_post(ctx):
+    """buffer_signal adds exactly one unconsumed row carrying the arguments; every existing row stays as it was."""
+    I = ctx.I
+    if ctx.exc is not None:
+        return [("no-exception", FALSE)]
+    ins = sql_effects(ctx, "insert", ST)
+    goals = [("one-insert", z3.BoolVal(len(ins) == 1)), ("no-update-or-delete", z3.BoolVal(not sql_effects(ctx, "update", ST) and not sql_effects(ctx, "delete", ST)))]
+    if len(ins) != 1:
+        return goals
+    cur, ent = cur_table(ctx, ST), entry_table(ST)
+    r = ins[0].data["key"]
+    goals.append(("row-is-new", z3.Not(z3.Select(ent.exists, r))))
+    goals.append(("row-present", z3.Select(cur.exists, r)))
+    for c, a in (("execution_id", "execution_id"), ("stage_ref_id", "stage_ref_id"), ("signal_name", "signal_name")):
+        goals.append((f"row.{c}", z3.Select(cur.cols[c], r) == ctx.args[a].t))
+    goals.append(("other-rows-untouched", _frame(ctx, ST, except_key=r)))
+    return goals
+
+
+def signal_table_units():
+    reg = sql_registry()
+    mk = lambda ctx: ctx.st.ghost.setdefault("the_conn", SQL.new_connection(ctx.I))
+    return [
+        Unit(prop="*", name="L1/signals.consume_signal", func=SG + "consume_signal", registry=reg, names=STATUS_NAMES, replayable=False,
+             params=[("conn", mk), ("execution_id", ("str",)), ("stage_ref_id", ("str",)), ("signal_name", ("opt", ("str",)))],
+             obligations=[Obl("C18/signal-table/consume_signal", _consume_signal_post, when="any")]),
+        Unit(prop="*", name="L1/signals.buffer_signal", func=SG + "buffer_signal", registry=reg, names=STATUS_NAMES, replayable=False,
+             params=[("conn", mk), ("execution_id", ("str",)), ("stage_ref_id", ("str",)), ("signal_name", ("str",)), ("signal_data", ("opt", ("dict", ("val",))))],
+             obligations=[Obl("C18/signal-table/buffer_signal", _buffer_signal_post, when="any")]),
+    ]
+
+
+ALL.append(signal_table_units)
+
+
 # ---- upsert_task (C07 G-task) and the task row round trip (C19)
 TASK_FIELDS = ["id", "name", "implementing_class", "status", "start_time", "end_time", "stage_start", "stage_end", "loop_start", "loop_end",
                "task_exception_details"]
